@@ -1009,7 +1009,7 @@ func main() {
 	}()
 	go func() {
 		defer tlcWG.Done()
-		nExh = runUniverse(env, rep, c, p, alpha, common.TLCRun{Dir: "C11", Module: "PipelineUniverse", Config: cfg, Timeout: 13 * time.Minute}, seen)
+		nExh = runUniverse(env, rep, c, p, alpha, common.TLCRun{Dir: "C11", Module: "PipelineUniverse", Config: cfg, Timeout: time.Duration(env.Pick(13, 60)) * time.Minute}, seen)
 		lap("universe_exhaustive_done_at")
 	}()
 	go func() {
